@@ -7,6 +7,7 @@ from ..tables import t1_grid
 from ..tables.t1_grid import _guard, as_h, teq, tstr, make_interp, compose, identity_h
 from ..tables.gridsym import fresh_facts, rotation
 from ..ring import Rat, reset_relations
+from fractions import Fraction
 from ..symt import STensor
 from .. import symt
 
@@ -159,14 +160,65 @@ def header_eval(ctx: Ctx) -> None:
             _guard(ctx, rule, f"D={D}:{name}", fi, f"reader={name} D={D}", th)
 
 
+def seq_eval(ctx: Ctx) -> None:
+    """Grid.from_seq / from_numpy: the flat attribute array (n, s, c|o, R row-major) with either meaning of the third block."""
+    prog = ctx.prog
+    rule = "T1.itk-seq"
+    ctx.rule(rule, "Grid.from_seq / Grid.from_numpy(attrs, origin=flag) with attrs = (size, spacing, c, direction row-major): with origin=True "
+                   "the third block is the position of sample 0 (GRID->WORLD = c + R diag(s) i), with origin=False (default and explicit) it is "
+                   "the center (GRID->WORLD = c + R diag(s) (i - (n-1)/2)); spacing()/direction()/size() return the listed values")
+    Grid = prog.cls("deepali.core.grid", "Grid")
+    Axes = prog.cls("deepali.core.grid", "Axes")
+    for D in (2, 3):
+        for name in ("from_seq", "from_numpy"):
+            for flag in (True, False, None):
+                fi = prog.func("deepali.core.grid", f"Grid.{name}")
+
+                def th(D=D, fi=fi, flag=flag):
+                    from ..tae import ClassVal
+                    reset_relations()
+                    facts = fresh_facts()
+                    it = make_interp(ctx)
+                    n = [5, 4, 7][:D]
+                    s = [Rat.atom(f"s{i}") for i in range(D)]
+                    c = [Rat.atom(f"c{i}") for i in range(D)]
+                    for x in s:
+                        facts.declare_positive(x)
+                    Rm = rotation(D)
+                    attrs = list(n) + s + c + list(Rm.flat())
+                    kw = {} if flag is None else {"origin": flag}
+                    g = it.call(fi, ClassVal(Grid), attrs, **kw)
+                    m = as_h(it.method(g, "transform", it.enum(Axes, "GRID"), it.enum(Axes, "WORLD")))
+                    RS = symt.matmul(Rm, symt.diag(STensor.from_flat(s, [D])))
+                    cvec = STensor.from_flat(c, [D])
+                    if flag:
+                        o_ref = cvec
+                    else:
+                        half = STensor.from_flat([Fraction(k - 1, 2) for k in n], [D])
+                        o_ref = cvec.sub(symt.matmul(RS, half.unsqueeze(1)).squeeze(1))
+                    ref = symt.cat([RS, o_ref.unsqueeze(1)], dim=1)
+                    if not teq(m, ref):
+                        return False, f"index->physical {tstr(m)[:160]} expected {tstr(ref)[:160]}"
+                    if not (teq(it.method(g, "spacing"), STensor.from_flat(s, [D])) and teq(it.method(g, "direction"), Rm)
+                            and teq(it.method(g, "size_tensor"), STensor.from_flat(n, [D]))):
+                        return False, "spacing/direction/size getters differ from the listed values"
+                    return True, ""
+                _guard(ctx, rule, f"D={D}:{name}:origin={flag}", fi, f"{name}(origin={flag}) D={D}", th)
+
+
 def run(ctx: Ctx) -> None:
     wiring(ctx)
+    seq_eval(ctx)
+    from ..tables import t2_gridattrs
+    t2_gridattrs.run_gridattrs(ctx)
     t1_grid.run_grid_tables(ctx, for_c02=True)
     header_eval(ctx)
     t1_grid.run_singleton(ctx)
     ctx.floor("T1.itk-singleton", 5)
     ctx.floor("T1.itk", 16)
     ctx.floor("T1.itk-header", 4)
+    ctx.floor("T1.itk-seq", 12)
+    ctx.floor("T1.itk-attrs", 24)
     ctx.floor("E7.header-wiring", 14)
 
 
